@@ -194,6 +194,166 @@ func clientCase(dir string, n int, transport, kind, which string) string {
 	return fmt.Sprintf("class=%s speed=%s leak=%d follow=ok", class, speed, leak)
 }
 
+// duplexCase: one connection used in both directions at once (one goroutine reads, another writes).
+//   rdcancel : a write under a live context is blocked (the peer does not read); a read on the same connection is cancelled;
+//              then the peer drains: the write must complete, untouched by the read's cancellation
+//   stalehook: a write completes under ctx1; a later write under a live ctx2 is blocked; ctx1 is cancelled; the peer drains:
+//              the second write must complete
+//   rwshare  : a raw read is blocked while writes on the same connection complete; then the peer sends three bytes:
+//              the read must return exactly those
+func duplexCase(dir string, n int, transport, which string) string {
+	rw, peer, cleanup, err := pair(transport, dir, n)
+	if err != nil {
+		return "X setup " + err.Error()
+	}
+	defer cleanup()
+	time.Sleep(5 * time.Millisecond)
+	base := runtime.NumGoroutine()
+	live := func() (context.Context, context.CancelFunc) {
+		c, cf := context.WithCancel(context.Background())
+		t := time.AfterFunc(5*time.Second, cf)
+		return c, func() { t.Stop(); cf() }
+	}
+	big := bytes.Repeat([]byte("w"), 8<<20)
+	class, speed := "ok", "fast"
+	switch which {
+	case "rdcancel", "stalehook":
+		if which == "stalehook" {
+			c1, cancel1 := context.WithCancel(context.Background())
+			got := make(chan int, 1)
+			go func() { b := make([]byte, 16); k, _ := peer.Read(b); got <- k }()
+			if _, err := rw.Write(c1, []byte("first")); err != nil {
+				cancel1()
+				return "X first write " + err.Error()
+			}
+			<-got
+			defer cancel1()
+			wctx, wcancel := live()
+			defer wcancel()
+			wres := make(chan error, 1)
+			go func() { _, e := rw.Write(wctx, big); wres <- e }()
+			time.Sleep(40 * time.Millisecond)
+			cancel1() // the context of the write that completed long ago
+			time.Sleep(40 * time.Millisecond)
+			go io.Copy(io.Discard, peer)
+			start := time.Now()
+			select {
+			case e := <-wres:
+				class = classify(e)
+			case <-time.After(6 * time.Second):
+				class = "other:stuck"
+			}
+			if time.Since(start) > 4*time.Second {
+				speed = "slow"
+			}
+		} else {
+			wctx, wcancel := live()
+			defer wcancel()
+			wres := make(chan error, 1)
+			go func() { _, e := rw.Write(wctx, big); wres <- e }()
+			time.Sleep(40 * time.Millisecond)
+			rctx, rcancel := context.WithCancel(context.Background())
+			go func() { time.Sleep(40 * time.Millisecond); rcancel() }()
+			buf := make([]byte, 16)
+			_, rerr := rw.Read(rctx, buf)
+			rcancel()
+			if c := classify(rerr); c != "ctx" && c != "timeout" {
+				return "class=other:read-" + c + " speed=fast leak=0 follow=ok"
+			}
+			time.Sleep(20 * time.Millisecond)
+			go io.Copy(io.Discard, peer)
+			select {
+			case e := <-wres:
+				class = classify(e)
+			case <-time.After(6 * time.Second):
+				class = "other:stuck"
+			}
+		}
+	case "bigraw":
+		// 20 MiB of raw payload in one direction with no frame read in between: every byte, in order
+		const total = 20 << 20
+		go func() {
+			chunk := make([]byte, 1<<16)
+			for off := 0; off < total; off += len(chunk) {
+				for i := range chunk {
+					chunk[i] = byte((off + i) * 131 >> 7)
+				}
+				if _, err := peer.Write(chunk); err != nil {
+					return
+				}
+			}
+		}()
+		rctx, rcancel := context.WithCancel(context.Background())
+		t := time.AfterFunc(30*time.Second, rcancel)
+		defer func() { t.Stop(); rcancel() }()
+		buf := make([]byte, 70000)
+		got := 0
+		for got < total {
+			k, e := rw.Read(rctx, buf)
+			for i := 0; i < k; i++ {
+				if buf[i] != byte((got+i)*131>>7) {
+					class = fmt.Sprintf("other:wrong-byte-at-%d", got+i)
+					k = 0
+					e = io.ErrUnexpectedEOF
+					break
+				}
+			}
+			got += k
+			if e != nil {
+				if class == "ok" {
+					class = fmt.Sprintf("other:raw-read-stopped-after-%d-of-%d:%s", got, total, classify(e))
+				}
+				break
+			}
+		}
+	case "rwshare":
+		rctx, rcancel := live()
+		defer rcancel()
+		type rr struct {
+			b   []byte
+			err error
+		}
+		rres := make(chan rr, 1)
+		go func() {
+			buf := make([]byte, 16)
+			for i := range buf {
+				buf[i] = 0xEE
+			}
+			k, e := rw.Read(rctx, buf)
+			rres <- rr{buf[:k], e}
+		}()
+		time.Sleep(30 * time.Millisecond)
+		go io.Copy(io.Discard, peer)
+		for i := 0; i < 5; i++ {
+			wctx, wcancel := live()
+			rw.Write(wctx, []byte("tick\x00"))
+			wcancel()
+			time.Sleep(5 * time.Millisecond)
+		}
+		select {
+		case r := <-rres:
+			class = "other:read-returned-before-anything-was-sent:" + fmt.Sprintf("%q", r.b)
+		default:
+			peer.Write([]byte("XYZ"))
+			select {
+			case r := <-rres:
+				class = classify(r.err)
+				if r.err == nil && string(r.b) != "XYZ" {
+					class = "other:wrong-data:" + fmt.Sprintf("%q", r.b)
+				}
+			case <-time.After(4 * time.Second):
+				class = "other:stuck"
+			}
+		}
+	}
+	time.Sleep(30 * time.Millisecond)
+	leak := runtime.NumGoroutine() - base - 1 // our own drain goroutine
+	if leak < 0 {
+		leak = 0
+	}
+	return fmt.Sprintf("class=%s speed=%s leak=%d follow=ok", strings.ReplaceAll(class, " ", "_"), speed, leak)
+}
+
 func runCase(dir string, n int, line string) (res string) {
 	defer func() {
 		if r := recover(); r != nil {
@@ -204,6 +364,9 @@ func runCase(dir string, n int, line string) (res string) {
 	transport, op, kind, instant := f[0], f[1], f[2], f[3]
 	if op == "clientrecv" {
 		return clientCase(dir, n, transport, kind, instant)
+	}
+	if op == "duplex" {
+		return duplexCase(dir, n, transport, instant)
 	}
 	rw, peer, cleanup, err := pair(transport, dir, n)
 	if err != nil {
@@ -368,7 +531,16 @@ func main() {
 	n := 0
 	for sc.Scan() {
 		n++
-		fmt.Fprintln(w, runCase(dir, n, sc.Text()))
+		// a scenario that never comes back (a helper that is never joined, a stolen completion value) must not hang the check
+		resc := make(chan string, 1)
+		line := sc.Text()
+		go func(k int) { resc <- runCase(dir, k, line) }(n)
+		select {
+		case r := <-resc:
+			fmt.Fprintln(w, r)
+		case <-time.After(40 * time.Second):
+			fmt.Fprintln(w, "class=other:hung speed=slow:40000ms leak=0 follow=bad:hung")
+		}
 		w.Flush()
 	}
 }
